@@ -20,7 +20,7 @@ META = {
     'outside': ['grids larger than the bound', 'float64 rounding of (p - c0)/cellsize (the quotient is an exact real)',
                 'surfaces with no crossable cell while snapping is on'],
     'assumptions': ['coordinates are affine in the index (regular grid)', 'ties in nearest centre / nearest crossable cell may go either way'],
-    'budget_s': {'quick': 150, 'thorough': 1500},
+    'budget_s': {'quick': 240, 'thorough': 1500},
 }
 
 
